@@ -10,6 +10,7 @@ from __future__ import annotations
 
 import gc
 import math
+import threading as _real_threading
 import pickle
 import shutil
 import tempfile
@@ -134,6 +135,8 @@ class Scenario:
     durations: dict = field(default_factory=dict)       # {"step": 0.5, ...} virtual seconds (timed)
     timed: bool = False
     interrupt_at: int | None = None
+    coarse_data: bool = False         # True: collect/update are atomic steps (schedules recorded before the
+                                      # collector lock became a scheduling point keep their meaning)
     boot_interrupt: str | None = None   # KeyboardInterrupt instead of starting "inference" | "training" | "webapi"
     keeper_max_keep: int | None = None
     loop_quantum: float = 0.25        # timed mode: virtual duration of one loop delay
@@ -183,6 +186,12 @@ class Harness:
             if ev[0] == "control" and ev[1] in ("shutdown_ret", "shutdown_raise"):
                 self.sched.interrupt_at = None
         self.sched.listeners.append(disarm)
+        self.ctl_ticks = 0
+
+        def count_ticks(ev: tuple) -> None:
+            if ev[0] == "control" and ev[1] == "loop_sleep":
+                self.ctl_ticks += 1
+        self.sched.listeners.append(count_ticks)
         self.cb_counts: dict[tuple[str, str], int] = {}
         self.saves: list[dict] = []
         self.tmp = Path(tempfile.mkdtemp(prefix="pamiq-verif."))
@@ -191,6 +200,8 @@ class Harness:
         self.control_thread = None
         self.threads_by_status: dict[int, str] = {}
         self.in_prelaunch = False
+        self.save_state_depth = 0
+        self.in_final_save = False
 
     # ---- role resolution -----------------------------------------------------------------------
     @staticmethod
@@ -262,6 +273,12 @@ class Harness:
         for req in self.sc.client:
             if req[0] == "delay":
                 s.sleep(float(req[1]), "client_delay")
+                continue
+            if req[0] == "linger":
+                # let the control loop complete n more ticks before the next request (a user who looks
+                # away for a while): blocks until they have happened or launch() has ended
+                target = self.ctl_ticks + int(req[1])
+                s.yield_(Pending("client_linger", alts=lambda: ["go"] if self.ctl_ticks >= target else []))
                 continue
             method = req[0].rstrip("!")
             while True:
@@ -357,6 +374,8 @@ class Harness:
             def w(self_: Any, *a: Any, **kw: Any) -> Any:
                 H.control_thread = self_ if cls is tctl.ControlThread else H.control_thread
                 s.log(label + "_call", "", ptime._time_controller.time())
+                if label == "save_state":
+                    H.save_state_depth += 1
                 try:
                     r = orig(self_, *a, **kw)
                 except SchedAbort:
@@ -364,6 +383,9 @@ class Harness:
                 except BaseException as e:
                     s.log(label + "_raise", "", type(e).__name__)
                     raise
+                finally:
+                    if label == "save_state":
+                        H.save_state_depth -= 1
                 s.log(label + "_ret", "", r if isinstance(r, (bool, type(None))) else str(r))
                 s.log("sysclock", label + "_ret", ptime._time_controller.time())
                 return r
@@ -386,6 +408,8 @@ class Harness:
         def save_w(store: Any) -> Any:
             s.point("save_begin")
             s.log("save_begin")
+            # launch()'s own, final, save is the store call outside ControlThread.save_state
+            H.in_final_save = H.save_state_depth == 0 and not H.in_prelaunch
             try:
                 p = orig_save(store)
             except SchedAbort:
@@ -402,6 +426,27 @@ class Harness:
 
         # data-flow observation for the SysData model (log only: no scheduling points are added)
         import pamiq_core.data.interface as di
+        # the hand-over between collector and buffer at the granularity of its own lock: the collector's
+        # lock cooperates with the scheduler, and the clock reading between the two appends of one
+        # `collect` (sample, then timestamp) is a scheduling point - so a consumer can run *inside* a
+        # collect exactly where the lock does not exclude it
+        _FakeLock = FakeLock
+
+        class _CollectorLock(_FakeLock):
+            def __init__(self_) -> None:
+                super().__init__(s, "collector_lock")
+
+        class _DiTime:
+            def __getattr__(self_, name: str) -> Any:
+                return getattr(ptime, name)
+
+            def time(self_) -> float:
+                if _real_threading.get_ident() in s.by_ident and not s.aborted:
+                    s.point("collect_ts")
+                return ptime.time()
+        if not getattr(self.sc, "coarse_data", False):
+            self._patch(di, "RLock", _CollectorLock)
+            self._patch(di, "time", _DiTime())
         orig_update = di.DataUser.update
         orig_dsave = di.DataUser.save_state
         H._in_data_save = False
@@ -604,7 +649,8 @@ class _Cb:
             s.log("cb_raise", f"{self.comp}.{self.name}", "interrupt")
             raise
         for f in ([] if H.in_prelaunch else H.sc.faults):     # the preparatory launch runs fault-free
-            if f["comp"] == self.comp and f["cb"] == self.name and f["k"] == self.k:
+            if f["comp"] == self.comp and f["cb"] == self.name and \
+                    (f["k"] == self.k or (f["k"] == "final" and getattr(H, "in_final_save", False))):
                 s.log("cb_raise", f"{self.comp}.{self.name}", self.k)
                 raise InjectedFault(f"{self.comp}.{self.name}#{self.k}")
         s.log("cb_end", f"{self.comp}.{self.name}", self.k)
